@@ -251,7 +251,7 @@ def _work(job):
 
 
 def run(tier, seed):
-    nschemas, ntexts = (3000, 30) if tier == "quick" else (36000, 40)
+    nschemas, ntexts = (3000, 30) if tier == "quick" else (28000, 40)
     col = Collector()
     touched = 0
     for part in pmap(_work, [(seed, i, ntexts) for i in range(nschemas)]):
